@@ -153,7 +153,7 @@ class Clause:
 
 def resolve(key):
     """'kfac.mod:Class.method' -> (callable taking the real arguments, kind, owner class)."""
-    mod, qual = key.split(':')
+    mod, qual = key.split('#')[0].split(':')
     setter = qual.endswith('@setter')
     qual = qual.replace('@setter', '')
     m = importlib.import_module(mod)
